@@ -367,6 +367,22 @@ def run(index, rep, tier):
         rep.note("R12.7: %d stores into the new object examined, %d of them carry a source value over" % (nstate, ncarry))
         rep.floor("R12.7", "stores into the new object inside __deepcopy__ hooks", 4, nstate)
 
+    # ---- R12.3 rooting carried over
+    with rep.section("R12.3 rooting"):
+        et = index.function(DM + "treemodel._tree.Tree.extract_tree")
+        cfg = cfg_of(et)
+        news = [a for a in walk_no_nested(et.node) if isinstance(a, ast.Assign) and isinstance(a.targets[0], ast.Name) and isinstance(a.value, ast.Call) and (norm(a.value.func) in ("self.__class__", "tree_factory"))]
+        if not news:
+            raise AnalysisError("R12.3: creation of the extracted tree not recognised")
+        ov = news[0].targets[0].id
+        def sets_rooting(x, ov=ov):
+            if x.kind == "stmt" and isinstance(x.ast, ast.Assign) and norm(x.ast.targets[0]) in (ov + "._is_rooted", ov + ".is_rooted") and "is_rooted" in norm(x.ast.value):
+                return True
+            return any(get_kwarg(c, "is_rooted") is not None and "is_rooted" in norm(get_kwarg(c, "is_rooted")) for c in node_calls(x) if norm(c.func) in ("self.__class__", "tree_factory"))
+        ok, w = cfg.must_pass(cfg.entry, sets_rooting)
+        rep.check(ok, "R12.3", et.qualname, "extracted tree can be returned without the source's rooting", fn_where(et), "extract_tree gives the new tree the source's rooting state on every path",
+                  "Tree.extract_tree has a path (e.g. the tree_factory branch) on which the new tree never receives the source's rooting state: an extracted tree copies structure, lengths, labels and taxa - and the rooting that tells how to read that structure - but comes back with is_rooted=None")
+
     # ---- R12.3
     with rep.section("R12.3"):
         c08.thin_clone_rule(index, rep, "R12.3")
